@@ -703,13 +703,15 @@ class EdgeQLSourceGenerator(codegen.SourceGenerator):
     def visit_Constant(self, node: qlast.Constant) -> None:
         if node.kind == qlast.ConstantKind.STRING:
             if not _NON_PRINTABLE_RE.search(node.value):
-                for d in ("'", '"', '$$'):
+                for d in ("'", '"'):
                     if d not in node.value:
-                        if '\\' in node.value and d != '$$':
+                        if '\\' in node.value:
                             self.write('r', d, node.value, d)
                         else:
                             self.write(d, node.value, d)
                         return
+                # starts with a plain $$ and picks a longer marker only
+                # if the value would end that early
                 self.write(edgeql_quote.dollar_quote_literal(node.value))
                 return
             # Not repr(): Python escapes U+0080-U+009F as \x80-\x9f,
